@@ -251,6 +251,61 @@ def variants(ctx, eqs):
     return vs
 
 
+def spelling_monitor(ctx):
+    """programs: the verdict does not depend on how identifiers are spelled: a parameter of a function is renamed, throughout
+    its declaration, to the name of another top-level declaration (of whatever kind) that the declaration does not mention, or
+    to a fresh name; the binder is lexically the same, so the kind equations are the same up to the names"""
+    import re
+    from . import progs
+    n = 2400 if ctx.thorough else 300
+    base, ren = [], []
+    fixed = [("let a = {};\nlet f a = / on a;\nres f (get -> {});\n", "let a = {};\nlet f b = / on b;\nres f (get -> {});\n"),
+             ("let a = get -> {};\nlet f a = / on a;\nres f num;\n", "let a = get -> {};\nlet f b = / on b;\nres f num;\n"),
+             ("let t = str;\nlet w t = rec t [t];\nres / on get -> <w num>;\n", "let t = str;\nlet w u = rec v [v];\nres / on get -> <w num>;\n")]
+    for a, b in fixed:
+        base.append({"mods": {"file:///w/main.oal": a}, "main": "file:///w/main.oal"})
+        ren.append({"mods": {"file:///w/main.oal": b}, "main": "file:///w/main.oal"})
+    for p in progs.gen_programs(ctx, n, start=9000):
+        if len(p["mods"]) != 1:
+            continue
+        src = p["mods"][p["main"]]
+        lines = src.split("\n")
+        tops = [m.group(1) for l in lines for m in [re.match(r"let (@?[A-Za-z_][\w$-]*)", l)] if m]
+        cands = [(i, m) for i, l in enumerate(lines) for m in [re.match(r"let [a-z]\w* ((?:[a-z]\w* )+)= ", l)] if m]
+        if not cands:
+            continue
+        i, m = ctx.rng.choice(cands)
+        param = ctx.rng.choice(m.group(1).split())
+        others = [t for t in tops if not t.startswith("@") and not re.search(r"(?<![\w$@.-])%s(?![\w$-])" % re.escape(t), lines[i]) and t != param]
+        new = ctx.rng.choice(others) if others and ctx.rng.random() < 0.8 else "zz_fresh"
+        if new in m.group(1).split():
+            continue
+        l2 = re.sub(r"(?<![\w$@.'-])%s(?![\w$-])" % re.escape(param), new, lines[i])
+        base.append(p)
+        ren.append({"mods": {p["main"]: "\n".join(lines[:i] + [l2] + lines[i + 1:])}, "main": p["main"]})
+    r1 = progs.compile_many(base)
+    r2 = progs.compile_many(ren)
+
+    def verdict(r):
+        if r.get("status") == "ok":
+            return "accepted"
+        if r.get("status") == "error":
+            return "error:%s:%s" % (r.get("phase"), r.get("kind"))
+        return str(r.get("status"))
+    for p, q, a, b in zip(base, ren, r1, r2):
+        ctx.cov["evaluations"] += 1
+        va, vb = verdict(a), verdict(b)
+        if "skipped" in (va, vb):
+            continue
+        if va != vb:
+            ctx.violation("the verdict on a program depends on the spelling of a bound identifier (a parameter renamed throughout its declaration)",
+                          {"program": p, "renamed": q}, va, vb)
+            if len(ctx.violations) > 3:
+                return
+        else:
+            ctx.count("spelling_" + ("accepted" if va == "accepted" else "rejected"))
+
+
 def order_monitor(ctx):
     """programs: the verdict of the type-checking phases (accepted, or the kind of error) does not depend on the order of
     the declarations; cyclic and acyclic declaration graphs (one declaration per line), one random permutation each"""
@@ -383,6 +438,7 @@ def check(ctx):
             ctx.violation("the verdict changes under permutation of equations / renaming of variables / swapping sides",
                           inp, b.split()[0], o)
     order_monitor(ctx)
+    spelling_monitor(ctx)
     ctx.cov["rule"] = ("layer L4u: all single equations over 76 tags of depth<=2 on 3 variables; pairs over 14 tags; triples over 7 tags "
                        "(sampled by residue in the quick tier, complete in the thorough tier); random systems (<=12 equations, depth<=4, <=8 variables); "
                        "each multi-equation system also reversed, shuffled, side-swapped and variable-renamed. distinct_nontrivial = distinct systems "
